@@ -10,7 +10,10 @@ avoid = ''
 if wave:
     import glob
     prev = [json.load(open(f)).get('needs', '') for f in sorted(glob.glob('/verif/seeded/%s-*/meta.json' % pid))]
-    avoid = 'AVOID (already tried by others, do something with a DIFFERENT mechanism and site): ' + ' || '.join(prev) + '\n'
+    avoid = 'AVOID (already tried by others, do something with a DIFFERENT mechanism and site): ' + ' || '.join(p for p in prev if p) + '\n'
+    if wave >= 'w5':
+        avoid += ('Look especially at anchor files, classes, options and code paths that the AVOID list does not mention yet '
+                  '(rarely used constructor options, alternative entry points, less common message types or framings, error paths).\n')
 print(f"""You are helping to test a verification effort for the Python library pymodbus (Modbus protocol stack, version 2.4.0 snapshot).
 You have your own scratch git worktree of the repository at {wt} (python interpreter with all dependencies: /venv/bin/python; run it with `cd {wt} && PYTHONPATH={wt} /venv/bin/python ...` so that YOUR copy of pymodbus is imported, and check `pymodbus.__file__` once to be sure). Work ONLY inside {wt} and {out}/ . Never touch /repo or /verif and do not read anything under /verif.
 
